@@ -9,6 +9,7 @@ import (
 	"fmt"
 	"go/ast"
 	"go/parser"
+	"go/printer"
 	"go/token"
 	"os"
 	"path/filepath"
@@ -39,6 +40,8 @@ func main() {
 	fset := token.NewFileSet()
 	files, _ := filepath.Glob(filepath.Join(*repo, "*.go"))
 	var vars []string
+	parsed := map[string]*ast.File{}
+	pkgSpecs := map[*ast.ValueSpec]bool{}
 	for _, f := range files {
 		if strings.HasSuffix(f, "_test.go") || strings.HasPrefix(filepath.Base(f), "zz_verif_") {
 			continue
@@ -53,6 +56,7 @@ func main() {
 		if hasBuildIgnore(af) {
 			continue
 		}
+		parsed[f] = af
 		for _, d := range af.Decls {
 			gd, ok := d.(*ast.GenDecl)
 			if !ok || gd.Tok != token.VAR {
@@ -60,6 +64,7 @@ func main() {
 			}
 			for _, s := range gd.Specs {
 				vs := s.(*ast.ValueSpec)
+				pkgSpecs[vs] = true
 				for _, n := range vs.Names {
 					if n.Name != "_" {
 						vars = append(vars, n.Name)
@@ -87,6 +92,164 @@ func main() {
 	if err := os.WriteFile(filepath.Join(*out, "overlay.json"), js, 0o644); err != nil {
 		fatal(err)
 	}
+	// second overlay (C20 only): the same, with every source file of package otr3 replaced by a copy in which a call
+	// verifPoint() is the first statement of every function and verifAccess() precedes every statement that names a
+	// package-level variable. The copies live under the output directory; /repo is not written.
+	names := map[string]bool{}
+	for _, v := range vars {
+		names[v] = true
+	}
+	ptsDir := filepath.Join(*out, "pts")
+	os.RemoveAll(ptsDir)
+	if err := os.MkdirAll(ptsDir, 0o755); err != nil {
+		fatal(err)
+	}
+	replace2 := map[string]string{}
+	for k, v := range replace {
+		replace2[k] = v
+	}
+	nFuncs, nAccess := 0, 0
+	for f, af := range parsed {
+		a, b := instrument(af, names, pkgSpecs)
+		nFuncs += a
+		nAccess += b
+		dst := filepath.Join(ptsDir, filepath.Base(f))
+		w, err := os.Create(dst)
+		if err != nil {
+			fatal(err)
+		}
+		if err := printer.Fprint(w, fset, af); err != nil {
+			fatal(err)
+		}
+		w.Close()
+		replace2[f] = dst
+	}
+	js2, _ := json.MarshalIndent(map[string]interface{}{"Replace": replace2}, "", " ")
+	if err := os.WriteFile(filepath.Join(*out, "overlay-pts.json"), js2, 0o644); err != nil {
+		fatal(err)
+	}
+	os.WriteFile(filepath.Join(*out, "pts-stats.txt"), []byte(fmt.Sprintf("functions=%d access_statements=%d\n", nFuncs, nAccess)), 0o644)
+}
+
+func callStmt(name string) ast.Stmt {
+	return &ast.ExprStmt{X: &ast.CallExpr{Fun: ast.NewIdent(name)}}
+}
+
+// refersToPkgVar: does the node name a package-level variable (selectors' field names and shadowing locals excluded)?
+func refersToPkgVar(n ast.Node, names map[string]bool, pkgSpecs map[*ast.ValueSpec]bool) bool {
+	found := false
+	var visit func(n ast.Node) bool
+	visit = func(n ast.Node) bool {
+		if found {
+			return false
+		}
+		switch x := n.(type) {
+		case *ast.SelectorExpr:
+			ast.Inspect(x.X, visit)
+			return false
+		case *ast.KeyValueExpr:
+			if _, isIdent := x.Key.(*ast.Ident); !isIdent {
+				ast.Inspect(x.Key, visit)
+			}
+			ast.Inspect(x.Value, visit)
+			return false
+		case *ast.FuncLit:
+			return false // its body gets its own points
+		case *ast.BlockStmt:
+			return false // nested blocks get their own points
+		case *ast.Ident:
+			if !names[x.Name] {
+				return false
+			}
+			if x.Obj == nil {
+				found = true // declared in another file of the package
+				return false
+			}
+			if vs, ok := x.Obj.Decl.(*ast.ValueSpec); ok && pkgSpecs[vs] {
+				found = true
+			}
+			return false
+		}
+		return true
+	}
+	ast.Inspect(n, visit)
+	return found
+}
+
+func instrument(af *ast.File, names map[string]bool, pkgSpecs map[*ast.ValueSpec]bool) (nFuncs, nAccess int) {
+	rewrite := func(list []ast.Stmt) []ast.Stmt {
+		var out []ast.Stmt
+		for _, st := range list {
+			probe := ast.Node(st)
+			switch x := st.(type) {
+			case *ast.IfStmt:
+				probe = &ast.IfStmt{Init: x.Init, Cond: x.Cond, Body: &ast.BlockStmt{}}
+			case *ast.ForStmt:
+				probe = &ast.ForStmt{Init: x.Init, Cond: x.Cond, Post: x.Post, Body: &ast.BlockStmt{}}
+			case *ast.RangeStmt:
+				probe = &ast.ExprStmt{X: x.X}
+			case *ast.SwitchStmt:
+				probe = &ast.SwitchStmt{Init: x.Init, Tag: x.Tag, Body: &ast.BlockStmt{}}
+			case *ast.LabeledStmt:
+				probe = &ast.BlockStmt{}
+			}
+			if refersToPkgVar(probe, names, pkgSpecs) {
+				out = append(out, callStmt("verifAccess"))
+				nAccess++
+			}
+			out = append(out, st)
+		}
+		return out
+	}
+	ast.Inspect(af, func(n ast.Node) bool {
+		switch x := n.(type) {
+		case *ast.FuncDecl:
+			if x.Body != nil {
+				x.Body.List = append([]ast.Stmt{callStmt("verifPoint")}, x.Body.List...)
+				nFuncs++
+			}
+		case *ast.FuncLit:
+			x.Body.List = append([]ast.Stmt{callStmt("verifPoint")}, x.Body.List...)
+			nFuncs++
+		}
+		return true
+	})
+	// positions of the inserted calls are unknown to the printer: keep only the comments in front of the package
+	// clause (build constraints), so that none is printed into the middle of an inserted call
+	var keep []*ast.CommentGroup
+	for _, cg := range af.Comments {
+		if cg.End() < af.Package {
+			keep = append(keep, cg)
+		}
+	}
+	af.Comments = keep
+	caseBodies := map[*ast.BlockStmt]bool{}
+	ast.Inspect(af, func(n ast.Node) bool {
+		switch x := n.(type) {
+		case *ast.SwitchStmt:
+			caseBodies[x.Body] = true
+		case *ast.TypeSwitchStmt:
+			caseBodies[x.Body] = true
+		case *ast.SelectStmt:
+			caseBodies[x.Body] = true
+		}
+		return true
+	})
+	ast.Inspect(af, func(n ast.Node) bool {
+		switch x := n.(type) {
+		case *ast.BlockStmt:
+			if caseBodies[x] {
+				return true // a list of case clauses, not of statements
+			}
+			x.List = rewrite(x.List)
+		case *ast.CaseClause:
+			x.Body = rewrite(x.Body)
+		case *ast.CommClause:
+			x.Body = rewrite(x.Body)
+		}
+		return true
+	})
+	return
 }
 
 func hasBuildIgnore(f *ast.File) bool {
